@@ -99,7 +99,7 @@ func genC17(r *Rng, seed uint64) *C17Spec {
 			s.List = pick(r, []string{"wordz", "english", "Words"})
 		}
 		if r.Chance(0.35) {
-			s.File = pick(r, []string{"valid", "valid", "dups", "dups", "empty", "whitespace", "missing", "dir"})
+			s.File = pick(r, []string{"valid", "valid", "dups", "dups", "empty", "whitespace", "missing", "dir", "longline"})
 			s.Words = genWords(r, listOpt{min: 1, max: 9, twins: 0.15, precap: 0.1, caseless: 0.1})
 			var clean []string
 			for _, w := range s.Words {
@@ -113,6 +113,14 @@ func genC17(r *Rng, seed uint64) *C17Spec {
 			s.Words = clean
 			if s.File == "dups" {
 				s.Words = append(s.Words, s.Words[0], pick(r, s.Words))
+			}
+			if s.File == "longline" {
+				// thousands of words on a single line (more than 64 KiB without a newline)
+				base := append([]string{}, s.Words...)
+				s.Words = nil
+				for i := 0; i < 9000; i++ {
+					s.Words = append(s.Words, fmt.Sprintf("%s%d", base[i%len(base)], i))
+				}
 			}
 		}
 		if r.Chance(0.6) {
@@ -294,7 +302,7 @@ func (s *C17Spec) expectation(c *Ctx, tape []byte) cliExpect {
 			}
 			agileBuilt[name] = wl
 		}
-	case "valid", "dups":
+	case "valid", "dups", "longline":
 		m := mark()
 		var err error
 		before := hookCalls.words
@@ -442,10 +450,10 @@ func runC17(c *Ctx, si interface{}) {
 	// file state
 	filePath := filepath.Join(dir, "wordlist.txt")
 	switch s.File {
-	case "valid", "dups":
+	case "valid", "dups", "longline":
 		sepr := "\n"
-		if s.Style&1 == 1 {
-			sepr = " \t"
+		if s.Style&1 == 1 || s.File == "longline" {
+			sepr = " "
 		}
 		os.WriteFile(filePath, []byte(strings.Join(s.Words, sepr)+"\n"), 0600)
 	case "empty":
@@ -482,7 +490,7 @@ func runC17(c *Ctx, si interface{}) {
 		c.Distinct(strings.Join(args[:1], " "), s.Length != nil, s.Allow != nil, s.Require != nil, s.Exclude != nil, s.Size != nil, s.List, s.File, s.Sep, s.Cap, s.Entropy, s.BadFlag != "")
 	}
 	exp := s.expectation(c, tape)
-	desc := fmt.Sprintf("opgen %q (file: %s %q)", args, s.File, s.Words)
+	desc := fmt.Sprintf("opgen %q (file: %s %q)", args, s.File, brief1(s.Words))
 	if exp.dontcare {
 		c.Count("dontcare", 1)
 		return
